@@ -26,7 +26,7 @@ pub struct PropSpec {
 /// limb-pattern keys x 10 key codecs (8 + the two further serde_json front ends) + edge-encoding keys x 2 groups x 10
 const GRID_KEYS: u64 = 1296 * 10 + ((crate::env::EDGE_SCALARS_G1.len() + crate::env::EDGE_SCALARS_G2.len()) as u64) * 20;
 /// every large framed-size boundary (sc_crypt::big_lens)
-const BIG_LENS: u64 = 182;
+const BIG_LENS: u64 = 224;
 /// (group, scheme) x every composite-boundary message length (env::composite_lens)
 const COMPOSITE_CELLS: u64 = 6 * 141;
 fn cs(scenario: &'static dyn crate::driver::Scenario, class: &'static str, quick: u64, thorough: u64, exhaustive: bool) -> ClassSpec {
@@ -144,7 +144,7 @@ pub fn spec(id: &str) -> Option<PropSpec> {
         }),
         "C11" => Some(base(
             vec![cs(&CRYPT, "sc-roundtrip", 1200, 24000, false), cs(&CRYPT, "sc-roundtrip-big", BIG_LENS, BIG_LENS * 6, true), cs(&CRYPT, "sc-tamper", 1500, 30000, false), cs(&CRYPT, "sc-bitflip-all", 6, 36, false), cs(&CRYPT, "sc-roundtrip-huge", 4, 13, true), cs(&CONC, "conc-sc", 150, 1500, false), cs(&CONC, "conc-sc-tamper", 100, 1000, false)],
-            "cases = (group, scheme, message length {0..40, 100..140, LEB128 boundaries 127/128, 16383/16384, 64 KiB; class `sc-roundtrip-big`: all 182 lengths whose framed size is within 1 of 2^16..2^25 or of 168*2^j / 136*2^j, j=7..14}, codec at rest, crash/duplicate faults | relay perturbation kind {u, v bit/length/prefix, w, label, splices, in-flight truncation/extension/bit flip} | every single bit of a short ciphertext in `sc-bitflip-all`); \
+            "cases = (group, scheme, message length {0..40, 100..140, LEB128 boundaries 127/128, 16383/16384, 64 KiB; class `sc-roundtrip-big`: all 224 lengths whose framed size is within 1 of 2^16..2^25, of 168*2^j / 136*2^j (j=7..14) or of 0.1, 1, 2, 3, 5, 10 million}, codec at rest, crash/duplicate faults | relay perturbation kind {u, v bit/length/prefix, w, label, splices, in-flight truncation/extension/bit flip} | every single bit of a short ciphertext in `sc-bitflip-all`); \
              non-trivial = any altered ciphertext or a run with crash/duplicate faults",
             vec!["cur-blst"],
         )),
@@ -155,7 +155,7 @@ pub fn spec(id: &str) -> Option<PropSpec> {
         )),
         "C13" => Some(base(
             vec![cs(&CRYPT, "tl-beacon", 1000, 15000, false), cs(&CRYPT, "tl-beacon-big", BIG_LENS, BIG_LENS * 6, true), cs(&CRYPT, "tl-tamper", 2400, 36000, false), cs(&CRYPT, "tl-bitflip-all", 12, 54, false), cs(&CRYPT, "tl-beacon-huge", 4, 13, true), cs(&CONC, "conc-tl", 100, 1000, false), cs(&CONC, "conc-tl-tamper", 60, 600, false)],
-            "cases = (group, scheme, beacon kind {whole key, t-of-n recombined over a lossy/duplicating transport}, message length (class `tl-beacon-big`: all 182 lengths whose framed size is within 1 of 2^16..2^25 or of 168*2^j / 136*2^j, j=7..14), identifier kind, fault-script length | perturbation kind distinguishing header, authenticated prefix of w and padding, incl. in-place rewrites of the length prefix to values around 2^7..2^128 | every single bit in `tl-bitflip-all`); non-trivial = recombined beacons, runs with faults, all altered ciphertexts",
+            "cases = (group, scheme, beacon kind {whole key, t-of-n recombined over a lossy/duplicating transport}, message length (class `tl-beacon-big`: all 224 lengths whose framed size is within 1 of 2^16..2^25, of 168*2^j / 136*2^j (j=7..14) or of 0.1, 1, 2, 3, 5, 10 million), identifier kind, fault-script length | perturbation kind distinguishing header, authenticated prefix of w and padding, incl. in-place rewrites of the length prefix to values around 2^7..2^128 | every single bit in `tl-bitflip-all`); non-trivial = recombined beacons, runs with faults, all altered ciphertexts",
             vec!["cur-blst"],
         )),
         "C14" => Some(base(
